@@ -114,10 +114,13 @@ CHECKS["C05"] = dict(
          "high-low, ATR's Wilder step keeps it >= 0. Theorem about the faithful engine, every numeric instance: the readings of a Counter "
          "over any stream are the run lengths of its input (candles without input neither extend nor break the run). Theorem (engine, "
          "reals): the threshold flag is False without a sigma reading and otherwise True exactly when |x[i]-x[i-1]| > multiplier*sigma. "
+         "Theorem (analysis model, reals): highest/lowest - the building blocks of Donchian and Highest/Lowest - return an element of the "
+         "window of number-like readings that bounds every element of it. "
          "All eleven indicators of the property are tied by the bit-exact engine "
          "correspondence and compared with independent reference implementations (presence exactly, values within a stated tolerance).",
-    note="TR, ATR, Counter and the threshold rule have theorems; STDEV (and the sigma the threshold reads), BBANDS, KC, Donchian, HL, HLA, "
-         "Supertrend are decided by correspondence + reference falsifier. Real-number axioms as for C04 (none for the Counter theorem).",
+    note="TR, ATR, Counter, the threshold rule and the window extremes have theorems; STDEV (and the sigma the threshold reads), the "
+         "assembly of BBANDS, KC, Donchian, HL, HLA, Supertrend from their parts are decided by correspondence + reference falsifier "
+         "(single-reading band relations are in C10). Real-number axioms as for C04 (none for the Counter theorem).",
     technique="Coq proof over R + vm_compute correspondence + reference falsifier", design="5/C05")
 CHECKS["C06"] = dict(
     text="Theorems: RSI = 100 - 100/(1+gain/loss) lies in [0,100] and is 100 when the average loss is 0, Wilder's averages stay >= 0 "
